@@ -3,6 +3,13 @@
 
     stream `c13_file` : (file EVENT)          → (line xBYTES) | discarded
     stream `c13_otlp` : (otlp SIGNAL EVENT)   → RECORD | none | panic          SIGNAL ::= logs | traces | metrics
+                        (otlp-re SIGNAL OUTER INNER) → (re RECORD|none RECORD|none) | panic
+                          OUTER, INNER ::= EVENT. OUTER is emitted by the caller; each `(reemit xTEXT)` value of
+                          OUTER is a `Display` value printing TEXT whose formatting code emits INNER through the
+                          SAME emitter on the same thread, every time the emitter formats it. Output: OUTER's
+                          record and the (one) record of the nested emits. A reemit value sits under a key that
+                          occurs once in OUTER and is not lifted by any signal (`reReserved`); the two modules
+                          differ (the records are told apart by their scope).
     stream `c13_term` : (term EVENT)          → (out xBYTES) | panic        (zone pinned to UTC, no colors)
     stream `c13_otlp_kf` : the same function; its corpus holds the reproducers of the known findings
 
@@ -11,6 +18,7 @@
   EXTENT ::= none | (point TS) | (range TS TS)          TS ::= (SECS NANOS xRFC3339)
   UNIQUE ::= true | false                                what the collection answers to `is_unique()`
   VAL    ::= null | (bool B) | (int TY N) | (f64 BITS xJSONTOK xDISPLAY) | (str xS) | (disp xS) | (dbg xS)
+           | (reemit xS)                               encoded exactly like (disp xS)
            | (err xTOP xCAUSE…) | (lvl debug|info|warn|error) | (tid N) | (sid N) | (kind span|metric) | (sv T xDISPLAY)
            | (fx sval|serde FIXTURE xDISPLAY)          FIXTURE: see `fixture?`
            | (arr-i64 (N…) xDISPLAY) | (arr-f64 ((BITS xJSONTOK xDISPLAY)…) xDISPLAY)        N ≤ 6 elements
@@ -148,6 +156,8 @@ def val? : Sexp → Option PV
     pure (.simple (.f64 (← u64? bits) (← tok.str?) (← disp.str?)))
   | .list [.atom "str", s] => s.str?.map fun s => .simple (.str s)
   | .list [.atom "disp", s] => s.str?.map fun s => .simple (.disp s)
+  -- a `Display` value whose formatting code emits another event: for the encoder it is a `Display` value
+  | .list [.atom "reemit", s] => s.str?.map fun s => .simple (.disp s)
   | .list [.atom "dbg", s] => s.str?.map fun s => .simple (.dbg s)
   | .list (.atom "err" :: top :: causes) => do
     pure (.simple (.err (← top.str?) (← causes.mapM Sexp.str?)))
@@ -322,8 +332,52 @@ def runFile (line : String) : String :=
     | none => "bad-op"
   | _ => "bad-op"
 
+/-- keys a `(reemit …)` value may not sit under (the same list as `RE_RESERVED` in
+    harness/hotlp/src/streams/c13/mod.rs): the ones some signal lifts out of the attributes -/
+def reReserved : List String :=
+  ["lvl", "trace_id", "span_id", "span_parent", "err", "evt_kind", "span_name", "metric_name", "metric_agg",
+   "metric_value", "metric_unit", "exception.message", "exception.stacktrace"]
+
+/-- the keys of an EVENT's `(reemit …)` values -/
+def reKeys : Sexp → Option (List String)
+  | .list [.atom "evt", _, _, _, _, .list (.atom "props" :: ps)] =>
+    (ps.mapM fun (s : Sexp) => match s with
+      | Sexp.list [k, .list [.atom "reemit", _]] => k.str?.map fun k => [k]
+      | Sexp.list [_, _] => some []
+      | _ => none).map List.flatten
+  | _ => none
+
+/-- the encoder of a signal, its records rendered and tagged with their scope (what the collector sees) -/
+def encoderOf : SignalS → Event → Option (Enc (String × String))
+  | .logs, e => some ((logRecord e).bind fun r => .ok (r.scope, showLog r))
+  | .traces, e => (spanRecord e).map fun x => x.bind fun r => .ok (r.scope, showSpan r)
+  | .metrics, e => (metricRecord e).map fun x => x.bind fun r => .ok (r.scope, showMetric r)
+
+def runOtlpRe (sig : String) (outerS innerS : Sexp) : String :=
+  let sig? : Option SignalS := match sig with
+    | "logs" => some .logs | "traces" => some .traces | "metrics" => some .metrics | _ => none
+  match sig?, event? outerS, event? innerS, reKeys outerS with
+  | some sg, some outer, some inner, some rks =>
+    let keys := outer.props.map Prod.fst
+    if outer.mdl == inner.mdl then "bad-op"
+    else if rks.any (fun k => reReserved.contains k || (keys.filter (· == k)).length != 1) then "bad-op"
+    else
+      -- how often the formatter runs is the encoder's business (message holes, buffered attributes, …): at least
+      -- once iff the event has such a value and its attributes are formatted at all; the observable collapses
+      -- the identical nested records into one (`EmitModel.C13.reentrant_emit_accepts_both` is for every count)
+      let k := if !rks.isEmpty && formatsAttributes sg outer then 1 else 0
+      let out := match emitRe (encoderOf sg) outer inner k [] with
+        | .panic => "panic"
+        | .ok (recs : List (String × String)) =>
+          let pick (mdl : String) : String :=
+            ((recs.filter fun (r : String × String) => r.1 == mdl).head?.map Prod.snd).getD "none"
+          sx "re" [pick outer.mdl, pick inner.mdl]
+      s!"{out}\t{sig},re={rks.length},nested={k},{eventSig outer}"
+  | _, _, _, _ => "bad-op"
+
 def runOtlp (line : String) : String :=
   match Sexp.parse line with
+  | some (.list [.atom "otlp-re", .atom sig, outer, inner]) => runOtlpRe sig outer inner
   | some (.list [.atom "otlp", .atom sig, ev]) =>
     match event? ev with
     | some e =>
